@@ -166,6 +166,9 @@ def eval_lin(F, fn, args, depth=7, budget=None, probe=None, self_ty=None):
                 for p in proj:
                     if p == "*":
                         continue
+                    if isinstance(p, list) and p[0] == "f" and isinstance(v, Opq):
+                        v = Opq("%s.%s" % (v.name, p[2] if len(p) > 2 else p[1]))      # a field of an opaque value keeps a printable identity
+                        continue
                     if isinstance(p, list) and p[0] == "f":
                         if isinstance(v, Agg):
                             v = v.fields[p[1]] if p[1] < len(v.fields) else None
@@ -467,20 +470,36 @@ def unsat(conds):
     return False
 
 
-def implied_nonneg(d, conds, rounds=3):
-    """is the form d >= 0 for all non-negative atoms satisfying conds (each cond >= 0)?  Incomplete: greedy elimination
-    of negative coefficients by subtracting multiples of conditions."""
+def implied_nonneg(d, conds, rounds=4):
+    """is the form d >= 0 for all non-negative atom values satisfying conds (each cond >= 0)?  Searches for a Farkas
+    certificate  d = sum(lambda_i * cond_i) + (form with non-negative coefficients),  lambda_i >= 0 rational: repeatedly pick
+    a negative coefficient of the remainder and cancel it with a condition that has a negative coefficient on the same atom
+    (depth-bounded, hence incomplete but sound)."""
+    from fractions import Fraction
     conds = [c for c in conds if isinstance(c, Lin)]
-    if d.nonneg():
-        return True
-    if rounds <= 0:
-        return False
-    neg = [a for a, v in d.t.items() if v < 0] + (["#const"] if d.c < 0 else [])
-    for c in conds:
-        # use c (>= 0):  d = (d - m*c) + m*c ; enough that d - m*c is implied >= 0 for some m >= 1
-        for m in (1, 2, 3, 4, 8, 12, 16):
-            r = d.sub(c.mulc(m))
-            better = sum(1 for a, v in r.t.items() if v < 0) + (1 if r.c < 0 else 0) < len(neg)
-            if r.nonneg() or (better and implied_nonneg(r, [x for x in conds if x is not c], rounds - 1)):
+
+    def coeffs(f):
+        t = {k: Fraction(v) for k, v in f.t.items()}
+        t["#1"] = Fraction(f.c)
+        return t
+
+    cs = [coeffs(c) for c in conds]
+
+    def search(r, depth, used):
+        neg = [k for k, v in r.items() if v < 0]
+        if not neg:
+            return True
+        if depth == 0:
+            return False
+        a = neg[0]
+        for i, c in enumerate(cs):
+            if i in used or c.get(a, 0) >= 0:
+                continue
+            lam = r[a] / c[a]                      # > 0
+            r2 = dict(r)
+            for k, v in c.items():
+                r2[k] = r2.get(k, 0) - lam * v
+            if search(r2, depth - 1, used | {i}):
                 return True
-    return False
+        return False
+    return search(coeffs(d), rounds, frozenset())
